@@ -2,6 +2,7 @@
 
 from __future__ import annotations
 
+import copy
 from collections.abc import Callable
 from collections.abc import Mapping
 from collections.abc import MutableMapping
@@ -125,7 +126,12 @@ class Optimizer:
                     expr = self._run_fixed_point(expr, step, rules, name, debug=debug)
                 else:
                     expr = self._run_once(expr, step, rules, name, debug=debug)
-                rules[name].expression = expr
+                if expr is not rule.expression:
+                    # The caller may share its Rule objects with other parsers:
+                    # store a rewritten copy instead of rewriting in place.
+                    rewritten = copy.copy(rule)
+                    rewritten.expression = expr
+                    rules[name] = rewritten
 
         return rules
 
